@@ -46,19 +46,19 @@ CLAIMS = {
     "C13": ("Fail-stop accessors: ReadSlice (region-backed and owned-borrowed; over u8, strings, nested), ReadColumns (both representations), for any symbolic i >= len the call must panic (must-panic obligations), in-bounds positions return the item's own element although neighbours are adjacent.",
             "Items of 1-3 elements with adjacent neighbours. FlatStack::get out of bounds is decided under C03.", "3 C13"),
     "C14": ("IntoOwned laws on &[u8], &str, ReadSlice (both representations), ReadColumns, Option/Result/tuple read items and raw Wrapped items: into_owned, clone_onto with empty/shorter/longer/other-variant targets of symbolic contents, borrow_as round trip, reborrow, region-to-region push from both representations.",
-            "Items of <= 3 elements; encoded (Huffman) Wrapped items are not covered (B-tree).", "3 C14"),
+            "Items of <= 3 elements. Huffman-ENCODED Wrapped items are covered for a uniform 2-bit code whose decoding table is written down by a verif-hook (two code words of one symbolic byte): into_owned and clone_onto onto shorter/longer targets; codes built by merge_regions are out of reach (B-tree).", "3 C14"),
     "C15": ("==, partial_cmp, cmp of ReadSlice items coincide with the lexicographic order of the owned vectors for all pairs of <= 3 symbolic bytes with symbolic lengths in four representation combinations, rows of strings, nested slices (thorough), a triple cross-check, and raw Wrapped items.",
-            "Agreement with a total order on all pairs implies the order axioms. Encoded Wrapped items not covered.", "3 C15"),
+            "Agreement with a total order on all pairs implies the order axioms. Raw vs Huffman-ENCODED Wrapped items are compared for a uniform 2-bit code (table written by a verif-hook, two code words) against raw items of 1..3 symbols, one comparison operator per harness; encoded vs encoded and codes built by merge_regions are not covered.", "3 C15"),
     "C16": ("Serde round trip through a positional token format (so that exactly the derived Serialize/Deserialize code is executed): Stride (all variants, symbolic fields), IndexList, IndexOptimized in four modes, CollapseSequence, ConsecutiveIndexPairs, FlatStack, ColumnsRegion, SliceRegion, OwnedRegion, StringRegion, Option/Result/Tuple regions - copy reads identically and answers a symbolic continuation identically (same indices, dedup and index-compression decisions).",
             "Concrete shapes with symbolic values (symbolic shapes exhaust memory); the format is not self-describing text - serde's own container impls are trusted as compiled.", "3 C16"),
-    "C17": ("Capacity form: after reserve_items / reserve_regions / merge_regions / FlatStack::merge_capacity, pushing exactly the announced batch (incl. empty items, Some/None and Ok/Err mixes, nested slices) leaves every capacity reported by heap_size unchanged, on empty and populated targets, for the vector-backed structural regions.",
-            "Batches of 2-3 items. The allocator-call form (stubbed allocator) and the logarithmic-growth bound are not built; runs of 2^6..2^14 are outside the technique.", "3 C17"),
+    "C17": ("Capacity form: after reserve_items / reserve_regions / merge_regions / FlatStack::merge_capacity, pushing exactly the announced batch (incl. empty items, Some/None and Ok/Err mixes, nested slices, owned-Vec input form) leaves every capacity reported by heap_size unchanged, on empty and populated targets, for the vector-backed structural regions. Allocator-call form with counting stubs on std::alloc::alloc and alloc::alloc::realloc_nonnull: no allocator call at all while announced plain-data contents are pushed, none for a push that fits the storage, and one growth step of the byte storage is 0 calls if the data fits, else exactly 1 with the capacity at least doubling (=> O(log n) calls for n pushes by induction on the step).",
+            "Batches of 2-3 items; growth step for 5 concrete (capacity, length, added) triples with symbolic contents. Stubs: std::alloc::alloc, alloc::alloc::realloc_nonnull -> counting wrappers that allocate through std::alloc::System; a witness harness checks on every run that the stubs are in effect. Runs of 2^6..2^14 as such are outside the technique; the logarithmic bound is an arithmetic inference from the one-step obligation.", "3 C17"),
     "C18": ("heap_size accounting on 21 compositions: used <= capacity for every pair, sum of used covers the model payload after dedup and is monotone on push, after clear the payload is no longer accounted and no capacity shrank; every branch contributes (Err side, second tuple field, third column, FlatStack indices, slice index entries).",
             "Histories push, push, clear. Coded regions excluded (compressed bytes; Huffman heap_size is todo!()).", "3 C18"),
     "C19": ("IndexOptimized heap cost equals the documented rule computed on a model (free stride prefix, 4 bytes per u32 entry, 8 from the first larger value) for unconstrained sequences and from each mode; the dense-index step Striding(1,c).push(c) is absorbed for any c; FlatStacks over consecutive-pair and columns regions spend zero bytes (used and capacity) on their own indices.",
             "Sequences of 2-3 (thorough 4) values; the any-number-of-items claim rests on the one-step obligation plus C12.", "3 C19"),
     "C20": ("Twin runs where one region receives a history mixing all input forms (owned, &, &&, array, slice, Vec, &Vec, PushIter, read items in both representations) and the other the canonical form: equal indices and used bytes after every step, equal reads - for OwnedRegion, StringRegion, SliceRegion, ColumnsRegion, Mirror/Vec/Option/Result/Tuple regions and through wrappers.",
-            "One value per form with concrete shape; Huffman container forms not covered (B-tree).", "3 C20"),
+            "One value per form with concrete shape, incl. the empty value and a narrower row after a wider one for the read-item forms; Huffman container forms not covered (B-tree). The runner compares the impl Push headers of the current sources with the list the form tables were written against and reports a new header as uncovered (exit 2).", "3 C20"),
 }
 
 READY = os.environ.get("READY", "").split()
